@@ -91,5 +91,7 @@ LEVEL_TEXT = ("Theorem over DBus/De.v, in which every slice, index, subtraction,
               "one known class (a `m` type reaching the D-Bus alignment table under the gvariant feature), the recursion depth is bounded by "
               "the container limits, and re-encoding a decoded value does not panic. The real decoder is run in debug and release and with "
               "gvariant+option-as-array on mutated, truncated, random and deep inputs.")
-LEVEL_NOTE = ("Partial: D-Bus *format* only — the GVariant deserializer (zvariant/src/gvariant/de.rs) is not modelled; stack depth of the "
+LEVEL_NOTE = ("Partial. This check covers the D-Bus format; the GVariant deserializer (zvariant/src/gvariant/de.rs) is modelled and its "
+              "no-panic theorems (C04_gv_panic_classes, C04_gv_step, C04_gv_nopanic_partial) and hostile-input runs live in the C05 "
+              "check (Properties/C05.v); stack depth of the "
               "signature parser on caller-supplied signatures is bounded only by the signature length; allocation bound stated on the model.")
